@@ -32,10 +32,16 @@ GClaimDep == \E t \in Tokens, a \in {1}, r \in {"user", "invalid", "blocked"}, u
            ClaimDeposit(t, a, r, u) /\ H("ClaimDeposit", [t |-> t, a |-> a, recv |-> r, u |-> u])
 GEndBlock == \E k \in Ks : EndBlock /\ H("EndBlock", [k |-> k])
 GAdvance == \E dh \in Jumps : Advance(dh) /\ H("Advance", [dh |-> dh])
-EstVersions == {0} \cup EstValues \cup {b.est : b \in batches}
-GEstimate == \E v \in Vals, n \in 1..(lastBatch + 1), x \in EstValues : Estimate(v, n, x) /\ H("Estimate", [v |-> v, n |-> n, x |-> x])
-GConfirm == \E v \in Vals, n \in 1..(lastBatch + 1), x \in EstVersions : Confirm(v, n, x) /\ H("Confirm", [v |-> v, n |-> n, x |-> x])
-GEvidence == \E v \in Vals, n \in 1..(lastBatch + 1), x \in EstVersions : Evidence(v, n, x) /\ H("Evidence", [v |-> v, n |-> n, x |-> x])
+EstVersions == {0, 9} \cup {b.est : b \in batches} \cup {e.value : e \in estimates}
+OpenBatches == {b.nonce : b \in batches}
+GEstimate == \E v \in Vals, n \in OpenBatches \cup {lastBatch + 1}, x \in EstValues :
+               /\ (\E e \in estimates : e.nonce = n /\ e.val = v) => x = CHOOSE y \in EstValues : TRUE   \* one duplicate attempt is enough
+               /\ Estimate(v, n, x) /\ H("Estimate", [v |-> v, n |-> n, x |-> x])
+GConfirm == \E v \in Vals, n \in OpenBatches \cup {lastBatch + 1}, x \in {0} \cup {b.est : b \in batches} :
+               Confirm(v, n, x) /\ H("Confirm", [v |-> v, n |-> n, x |-> x])
+GEvidence == \E v \in Vals, n \in 1..(lastBatch + 1), x \in EstVersions :
+               /\ v \notin jailed
+               /\ Evidence(v, n, x) /\ H("Evidence", [v |-> v, n |-> n, x |-> x])
 
 GNext ==
   CASE Family = "funds"  -> GSend \/ GCancel \/ GSetTax \/ GClaimExec \/ GClaimDep \/ GEndBlock \/ GAdvance
@@ -45,15 +51,16 @@ GNext ==
                             \/ GEstimate \/ GConfirm \/ GEvidence
 
 GInit == Init /\ hist = <<>>
-GView == <<bal, escrow, supply, community, pool, batches, lastTx, lastBatch, tax, limit, usage, height,
+Last == IF hist = <<>> THEN <<>> ELSE hist[Len(hist)]
+\* the incoming action is part of the view, so that steps which leave the state unchanged (rejected
+\* messages -- exactly what several properties are about) still yield a history of their own
+GView == <<Last, res, bal, escrow, supply, community, pool, batches, lastTx, lastBatch, tax, limit, usage, height,
            claims, estimates, confirms, archived, jailed>>
 GConstr == /\ Len(hist) <= MaxOps /\ lastTx <= MaxTx /\ lastBatch <= MaxBatch /\ Len(claims) <= MaxClaims /\ height <= MaxHeight
            /\ \A d \in Denoms : deposited[d] <= 2
-\* cover mode: TLC evaluates invariants on every generated successor (before the fingerprint
-\* check), so novelty is tracked in TLC register 1 (run with -workers 1)
-Seen == IF TLCGet("level") = 0 /\ hist = <<>> THEN TLCSet(1, {}) ELSE TRUE
-EmitOnce(v) == IF v \in TLCGet(1) THEN TRUE ELSE TLCSet(1, TLCGet(1) \cup {v}) /\ PrintT(<<"HIST", ToJson(hist)>>)
-Emit == IF EmitAt = 0 THEN (IF hist = <<>> THEN TLCSet(1, {})
-                            ELSE ((res \in {"eb", "fail"} /\ Len(hist) >= 3) => EmitOnce(GView)))
-        ELSE (Len(hist) = EmitAt => PrintT(<<"HIST", ToJson(hist)>>))
+\* cover mode: TLC evaluates invariants on every generated successor (before the fingerprint check),
+\* but evaluates the next-state relation once per distinct (dequeued) state: emit from there.
+EmitCond == Len(hist) >= 3 /\ (res \in {"eb", "fail"} \/ Family # "funds")
+GNextC == (IF EmitCond THEN PrintT(<<"HIST", ToJson(hist)>>) ELSE TRUE) /\ GNext
+Emit == Len(hist) = EmitAt => PrintT(<<"HIST", ToJson(hist)>>)
 =============================================================================
